@@ -27,6 +27,10 @@ def check(run):
     run.assumptions = ["numpy.einsum semantics", "face areas are those of C05"]
     f = P.func(f"{DA}:UxDataArray.integrate")
     kind.check_kind_dispatch(run, P, [f.key])
+    from ..rules import dtype as _dt
+    _dt.check_float_results(run, P, [f.key, "uxarray/core/dataset.py:UxDataset.integrate"])
+    from .c05 import _memo_paths
+    _memo_paths(run, P, P.func("uxarray/grid/grid.py:Grid.compute_face_areas"))
     params = [p for p in f.params() if p != "self"]
     # (b) einsum
     ein = [c for c in ast.walk(f.node) if isinstance(c, ast.Call) and (dotted(c.func) or [""])[-1] == "einsum"]
